@@ -285,9 +285,11 @@ def main():
     if cov.get('distinct_nontrivial', 0) < 2 and not ns.only:
         print('HARNESS-ERROR vacuous run: distinct_nontrivial < 2', file=sys.stderr)
         status = 2
-    os.makedirs(os.path.join(HERE, 'evidence'), exist_ok=True)
+    # evidence/ describes /repo; runs against another tree (VERIF_REPO=<scratch worktree>, seeded changes) are filed under scratch/
+    evdir = os.path.join(HERE, 'evidence') if os.path.realpath(os.environ.get('VERIF_REPO') or '/repo') == '/repo' else os.path.join(HERE, 'scratch', 'evidence_other_tree')
+    os.makedirs(evdir, exist_ok=True)
     if not ns.only:
-        with open(os.path.join(HERE, 'evidence', pid + '.json'), 'w') as f:
+        with open(os.path.join(evdir, pid + '.json'), 'w') as f:
             json.dump(ev, f, indent=1, sort_keys=True)
             f.write('\n')
     summ = {k: cov[k] for k in ('evaluations', 'distinct_nontrivial', 'states', 'transitions', 'traces_validated_against_impl', 'distinct_outcomes', 'exhaustive') if k in cov}
